@@ -468,9 +468,10 @@ func (h *c02H) basicTier() c02BasicTier {
 
 func (h *c02H) runBasic(x *vx.X) vx.Result {
 	tier := h.basicTier()
-	pi := x.In(len(c02PartStates))
+	pstates := h.partStates()
+	pi := x.In(len(pstates))
 	fi := x.In(len(c02FinalStates))
-	ps, fstate := c02PartStates[pi], c02FinalStates[fi]
+	ps, fstate := pstates[pi], c02FinalStates[fi]
 	cs := h.pooledCase()
 	defer h.release(cs)
 	cs.install(ps, fstate)
@@ -583,7 +584,11 @@ func init() {
 				sizes[n] = []int{len(c02Answers(6, true, l)), len(c02Answers(0, false, l))}
 			}
 			h.c.Bounds["basic.alphabet_sizes(ranged,unranged)"] = sizes
-			h.c.Bounds["part_states"] = len(c02PartStates)
+			var pn []string
+			for _, p := range h.partStates() {
+				pn = append(pn, p.Name)
+			}
+			h.c.Bounds["part_states"] = pn
 			h.c.Bounds["final_states"] = len(c02FinalStates)
 			h.c.Bounds["object_bytes"] = c02Size
 			e := &vx.Explorer{Name: "basic", BoundEnv: tier.BoundEnv, BoundSch: 0, BoundSum: -1, Exec: exec, Deadline: h.deadline, Seed: h.c.Seed}
